@@ -64,7 +64,10 @@ func (t *TinyLfu[K, V]) increaseWindow(amount int) int {
 		}
 
 		weight := entry.policyWeight
-		if weight > int64(amount) {
+		// cost changes reach the policy as deltas that may arrive in the reverse
+		// order, so a weight can be negative for a moment. Moving such an entry
+		// would make the remainder larger than the step and wrap the capacities
+		if weight < 0 || weight > int64(amount) {
 			break
 		}
 		amount -= int(weight)
@@ -86,7 +89,7 @@ func (t *TinyLfu[K, V]) decreaseWindow(amount int) int {
 			break
 		}
 		weight := entry.policyWeight
-		if weight > int64(amount) {
+		if weight < 0 || weight > int64(amount) {
 			break
 		}
 		amount -= int(weight)
